@@ -214,7 +214,7 @@ class Be(Family):
                 msgs.append((b, fds))
         if malformed and rng.chance(1, 6):
             msgs.append((bytes(rng.below(256) for _ in range(1 + rng.below(40))), g.fds(rng.below(3))))
-        outcomes = [(0 if rng.chance(3, 4) else rng.choice([1, 1, 2])) for _ in range(len(msgs) + 2)]
+        outcomes = [(0 if rng.chance(3, 4) else rng.choice([1, 1, 2, 3, 4])) for _ in range(len(msgs) + 2)]
         return feat, pfeat, outcomes, [(b, f) for b, f in msgs if len(b) > 0]
 
     def generate(self, rng, tier):
@@ -271,6 +271,12 @@ class Be(Family):
                         body = W.config(off, declared, rng.choice([0, 1]), bytes((i * 7 + 1) % 256 for i in range(n)))
                         msgs = pre + [(W.msg(code, body, need_reply=rng.chance(1, 2)), []), (W.msg(1), [])]
                         out.append((encode_case(W.VF_PROTOCOL_FEATURES, W.PF_ALL, [0] * len(pre) + [o, 0], msgs), "config-lengths"))
+        # every acknowledged request after a full negotiation, NEED_REPLY set, with each kind of handler failure
+        # (EINVAL, an OS code of 0, no OS code at all): the acknowledgement must be non-zero for all of them
+        for (c, b) in alpha:
+            for o in (1, 3, 4):
+                msgs = pre + [(W.msg(c, b, need_reply=True), []), (W.msg(1), [])]
+                out.append((encode_case(W.VF_PROTOCOL_FEATURES, W.PF_ALL, [0] * len(pre) + [o, 0], msgs), "failure-kinds"))
         return out
 
 
